@@ -26,7 +26,7 @@ import (
 // exported fields that are configuration or out-of-band state, not data of the value: the wire-form switches
 // (the table has both settings as separate types), the "trimmed" marker, and the trigger of an execution
 // (trigger.Type has no zero member: 0 is not a value of the type, its JSON name does not exist)
-var c17NotData = map[string]bool{"StateRootEnabled": true, "StateRootInHeader": true, "Trimmed": true, "Trigger": true}
+var c17NotData = map[string]bool{"StateRootEnabled": true, "StateRootInHeader": true, "Trimmed": true, "Trigger": true, "Features": true}
 
 // paths of the fields that can be zeroed: "A.B", "A[0].B"
 func c17ZeroPaths(v reflect.Value, prefix string, depth int, out *[]string) {
